@@ -158,5 +158,15 @@ CHECKS["C18"] = dict(
     note=_TB + "; contents of the arrays used by the iterative solvers are concrete (their control flow depends on norms)",
     technique="symbolic execution of the Python source on aliasing-faithful symbolic arrays; entrywise identities decided on exact normal forms / z3; float "
               "replay of path seeds")
-for _p in ["C17","C19"]:
+CHECKS["C17"] = dict(
+    text="NumPy's process-wide random state modelled as an uninterpreted state machine (free initial state s0 = any history of user draws; Seed, Adv "
+         "uninterpreted): for randn, Hutchinson estimation, diag / trace with Hutch, default start vectors of lanczos / arnoldi / power iteration, Nystrom, SLQ, "
+         "randomized SVD and lobpcg, z3 proves the final state term equals s0, no draw happens from a state derived from s0, and two calls with the same key "
+         "agree; Hutchinson with symbolic probes: exact on Diagonal operators with Rademacher probes (generators r^2 = 1), E[estimate] == k-th diagonal by "
+         "moment substitution for all symbolic operators n <= 3 and all offsets, and never more than max_iters products",
+    note=_TB + "; statistical quality of the generator and optional-stopping bias are outside; state-machine cases run the routines on the real numbers of a "
+         "mirrored private RandomState",
+    technique="symbolic state-machine model of the RNG decided by z3 over uninterpreted functions; symbolic execution of the Hutchinson loop on symbolic probes "
+              "with exact moment substitution; replay on the real generator under several user-draw histories")
+for _p in ["C19"]:
     NA[_p] = "check under construction in this session (not yet registered); see DESIGN.md section 5 for the plan"
